@@ -101,6 +101,12 @@ CHECKS = {
    design="5 (C09), 4.10",
    note="the raw-byte inputs come from a seeded generator, not from TLC; findings are keyed by panic location",
    technique="TLC-enumerated mutation scripts + seeded random inputs, crash-isolating workers, trace validation against the Frontend.tla acceptor"),
+ "C10": dict(
+   level="exploration",
+   text="Thin use of the family: the acceptor Format.tla states the four preservation clauses (same tree, same comments in order, literals byte for byte, idempotent); inputs are Lang.tla programs in three concrete styles and every .glu file of std, tests/pass and examples, plain and under whitespace perturbation (CRLF, trailing blanks, doubled blank lines); each record (trees of input and output normalised without positions / symbol counters / redundant parentheses, comment and literal sequences, second formatting) is validated by TLC against Format.tla.",
+   design="5 (C10), 4.9",
+   note="comments are compared as whitespace-normalised text; the widths of the formatter are not varied (Formatter::default)",
+   technique="TLC-generated programs x styles + repository files, trace validation of formatter records against the Format.tla acceptor"),
 }
 NOT_BUILT = "check not built yet (work in progress; see DESIGN.md section 5)"
 NA = {}
